@@ -346,6 +346,68 @@ def normalise_vis(toks):
     return out
 
 
+def widen_item_vis(toks, kind):
+    """R1: `pub` on the extracted struct/enum/type/const item and on every struct field (visibility has no
+    run-time meaning; Verus needs the spec-visible parts public)."""
+    out = list(toks)
+    # item keyword position
+    k = 0
+    while k < len(out) and not (out[k].kind == 'ident' and out[k].text == kind):
+        k += 1
+    if k >= len(out):
+        return out
+    if not any(t.text == 'pub' for t in out[:k]):
+        first = out[0] if k == 0 else out[0]
+        pub = Tok('ident', 'pub', out[0].ws, out[0].file, out[0].line)
+        out[0] = out[0].copy()
+        out[0].ws = ' '
+        out.insert(0, pub)
+        k += 1
+    if kind != 'struct':
+        return out
+    # find field group
+    j = k
+    while j < len(out) and out[j].text not in ('{', '(', ';'):
+        j += 1
+    if j >= len(out) or out[j].text == ';':
+        return out
+    close = match_close(out, j)
+    res = out[:j + 1]
+    i = j + 1
+    angle = 0
+    at_field_start = True
+    while i < close:
+        t = out[i]
+        if at_field_start:
+            if t.text == '#':
+                # attribute (should have been removed already)
+                pass
+            if not (t.kind == 'ident' and t.text == 'pub'):
+                nt = Tok('ident', 'pub', t.ws, t.file, t.line)
+                t = t.copy()
+                t.ws = ' '
+                res.append(nt)
+            at_field_start = False
+            res.append(t)
+            i += 1
+            continue
+        if t.kind == 'punct' and t.text in OPEN:
+            kk = match_close(out, i)
+            res.extend(out[i:kk + 1])
+            i = kk + 1
+            continue
+        if t.text == '<':
+            angle += 1
+        elif t.text == '>':
+            angle -= 1
+        elif t.text == ',' and angle == 0:
+            at_field_start = True
+        res.append(t)
+        i += 1
+    res.extend(out[close:])
+    return res
+
+
 def assert_eq_rule(toks, log):
     """R10: debug_assert_eq!(a, b[, msg..]) -> debug_assert!(a == b); likewise _ne and assert_eq/ne.
     Also drops format messages of assert!/debug_assert! (message has no effect on the predicate)."""
